@@ -24,6 +24,7 @@ type world struct {
 	discrete bool // correct observers report one of two values per stream (so that a mode aggregate exists)
 	verbose  bool // Config.VerboseLogging (must not change any result)
 	alias    int  // when non-zero: every stream s also exists as the different stream s+alias (same low bits)
+	zeroSid  int  // 0: stream id 0 is never observed; 1..3: it is, as a quote / decimal / timestamped stream
 	exact    bool // correct observers report exactly the base time and the clock moves by exactly one report interval (or a nanosecond off)
 }
 
@@ -59,6 +60,9 @@ func newWorld(g *G) *world {
 	}
 	w.verbose = g.R.Intn(4) == 0
 	w.discrete = g.R.Intn(3) == 0
+	if g.R.Intn(3) == 0 {
+		w.zeroSid = 1 + g.R.Intn(3)
+	}
 	return w
 }
 
@@ -68,7 +72,7 @@ func (w *world) rndChanDef() J {
 	st := make([]any, n)
 	for i := range st {
 		sid := 1 + g.R.Intn(5)
-		if g.R.Intn(25) == 0 {
+		if g.R.Intn(25) == 0 || (w.zeroSid > 0 && g.R.Intn(4) == 0) {
 			sid = 0 // the zero id is an ordinary id
 		}
 		if g.R.Intn(12) == 0 {
@@ -157,7 +161,11 @@ func (w *world) honestValue(sid int) any {
 		jitter = int64(g.R.Intn(4) / 3) // mostly identical values: the mode aggregator finds f+1 of them
 	}
 	p := decimal.New(w.price+int64(sid)*10+jitter, -2)
-	switch sid % 3 {
+	kind := sid % 3
+	if sid == 0 && w.zeroSid > 0 {
+		kind = w.zeroSid - 1 // the zero id is an ordinary stream of any type
+	}
+	switch kind {
 	case 0:
 		if w.discrete {
 			// three quote shapes around one price: the common one, and two whose bid / ask medians differ from it
@@ -292,6 +300,9 @@ func (w *world) rndPlan(n int) votePlan {
 // honest observers.  Honest observers: timestamp within ±50ms of now, values near the price.
 func (w *world) round(p votePlan, streams []int) (obs []any, honest []any) {
 	g := w.g
+	if w.zeroSid > 0 {
+		streams = append([]int{0}, streams...)
+	}
 	n := 2*w.f + 1 + g.R.Intn(w.f+1)
 	nf := g.R.Intn(w.f + 1)
 	perm := g.R.Perm(n)
